@@ -372,4 +372,3 @@ func runCase(c *kit.Case, r *kit.R, nOps int) {
 	c.Sample(map[string]any{"ways": ways, "keys": keys, "first_operations": written,
 		"final_recency_order_lru_first": fmt.Sprint(order), "final_bindings": fmt.Sprint(bound)})
 }
-
